@@ -439,6 +439,10 @@ func (s *relayState) absorb(cmd string, rep string) bool {
 	parts := strings.SplitN(f[1], ";", 2)
 	evs := strings.Fields(parts[0])
 	w := strings.Fields(cmd)
+	if f[0] == "noop" && (w[0] == "wr" || w[0] == "cl") {
+		// the harness only grants what the driver reported as parked
+		s.viol("hook-driver-desync", "command "+cmd+" was refused although the driver had reported that operation as parked: "+rep)
+	}
 	switch w[0] {
 	case "feed":
 		if f[0] == "ok" {
@@ -920,6 +924,15 @@ func randomRun(r *vlib.Run, w *worker, rng *vlib.Rng, i int) {
 
 // ---------------------------------------------------------------- main
 
+// mixSeed decorrelates consecutive seeds (vlib.NewRng(n) and NewRng(n+1) yield the same
+// splitmix64 stream shifted by one position).
+func mixSeed(x uint64) uint64 {
+	x ^= 0x6a09e667f3bcc909
+	x = (x ^ (x >> 30)) * 0xBF58476D1CE4E5B9
+	x = (x ^ (x >> 27)) * 0x94D049BB133111EB
+	return x ^ (x >> 31)
+}
+
 func allHistories(maxLen int) [][]string {
 	alpha := []string{"start", "finish", "int", "term"}
 	out := [][]string{{}}
@@ -1110,7 +1123,7 @@ func main() {
 		nrand = 0 // measuring one scenario
 	}
 	rngs := make([]*vlib.Rng, nrand)
-	base := vlib.NewRng(r.Seed)
+	base := vlib.NewRng(mixSeed(r.Seed))
 	for i := range rngs {
 		rngs[i] = base.Fork()
 	}
@@ -1131,7 +1144,7 @@ func main() {
 			}
 			n := 3000
 			rr := make([]*vlib.Rng, n)
-			b2 := vlib.NewRng(r.Seed + 7777)
+			b2 := vlib.NewRng(mixSeed(r.Seed + 7777))
 			for i := range rr {
 				rr[i] = b2.Fork()
 			}
